@@ -57,6 +57,11 @@ class ConclusionSelector(LogicalBinaryOperator, ABC):
             self._conclusion_.update(conclusions)
             self.concluded_before[not self._is_false_].add(required_output)
 
+    def _reset_evaluation_state_(self) -> None:
+        # conclusions of an earlier evaluation must not make the ones of this evaluation look already concluded
+        for seen_set in self.concluded_before.values():
+            seen_set.clear()
+
     @property
     def _plot_color_(self) -> ColorLegend:
         return ColorLegend("ConclusionSelector", "#eded18")
